@@ -262,6 +262,48 @@ func (w *world) roll() string {
 	return "rel=" + w.collectReleased(nil)
 }
 
+// rollx: the roll-over's critical section OVERLAPS the TTL firing of parked request `id`: the roll-over
+// goroutine is held inside its locked section (at its clock reading), r's TTL timer fires and r runs up
+// to the queue mutex, then the roll-over continues (and may hand the slot to r), then r gets the mutex.
+// At critical-section granularity this is the schedule  expire r ; roll ; finish r.
+func (w *world) rollx(id int64) string {
+	if id >= int64(len(w.reqs)) || w.reqs[id].phase != "parked" {
+		return "not-enabled"
+	}
+	r := w.reqs[id]
+	now := w.c.Manual.Now().UnixNano()
+	rr, ok1 := w.c.find(ownerRoll)
+	rt, ok2 := w.c.find(r.id)
+	if !ok1 || !ok2 || rr.due > now || rt.due > now {
+		return "not-enabled"
+	}
+	w.c.gateArmed.Store(true)
+	w.c.fire(ownerRoll)
+	select {
+	case <-w.c.gateEntered:
+	case <-time.After(settleTimeout):
+		panic("harness: roll-over goroutine did not reach its clock reading under the mutex")
+	}
+	w.c.fire(r.id)
+	waitUntil("expiring request to reach the queue mutex", func() bool { return enqueuersWaitingForMutex() >= 1 })
+	w.c.gateRelease <- struct{}{}
+	w.c.awaitReg(ownerRoll)
+	ok := w.awaitRes(r)
+	r.phase = "done"
+	w.inSel--
+	rel := w.collectReleased(nil)
+	if ok {
+		ids := []string{}
+		if rel != "-" {
+			ids = strings.Split(rel, ",")
+		}
+		ids = append(ids, strconv.Itoa(r.id))
+		sort.Slice(ids, func(i, j int) bool { a, _ := strconv.Atoi(ids[i]); b, _ := strconv.Atoi(ids[j]); return a < b })
+		rel = strings.Join(ids, ",")
+	}
+	return fmt.Sprintf("rel=%s ret=%v", rel, ok)
+}
+
 func (w *world) expire(id int64) string {
 	if id >= int64(len(w.reqs)) || w.reqs[id].phase != "parked" {
 		return "not-enabled"
@@ -407,6 +449,14 @@ func exec(c proto.Case, o *proto.Out) []string {
 					}
 				} else {
 					o.Count("roll-not-enabled")
+				}
+			}
+		case "rollx":
+			if r, ok := kvI(f, "r"); ok && len(f) == 2 {
+				a = w.rollx(r)
+				o.Count("rollx-" + strings.Fields(a)[len(strings.Fields(a))-1])
+				if a != "not-enabled" {
+					rolls++
 				}
 			}
 		case "expire":
